@@ -646,10 +646,11 @@ theorem baryCoeffs_eq_field (w : Weights F) (z : F) :
 
 end field
 
-/-- nothing the translator emitted is left without a tie theorem above -/
+/-- nothing the translator emitted is left without a tie theorem (the four protocol functions
+`commit`, `generateChallenges`, `CreateIPAProof`, `CheckIPAProof` are tied in `Tie/Protocol.lean`) -/
 theorem all_translated_tied : Gen.Loops.translated =
-    ["BatchInvert", "ComputeBarycentricCoefficients", "DivideOnDomain", "InnerProd", "NewPrecomputedWeights",
-     "PowersOf", "absInt", "computeBarycentricWeightForElement", "foldPoints", "foldScalars",
-     "getInvertedElement", "getRatioOfWeights", "splitPoints", "splitScalars"] := by decide
+    ["BatchInvert", "CheckIPAProof", "ComputeBarycentricCoefficients", "CreateIPAProof", "DivideOnDomain", "InnerProd",
+     "NewPrecomputedWeights", "PowersOf", "absInt", "commit", "computeBarycentricWeightForElement", "foldPoints",
+     "foldScalars", "generateChallenges", "getInvertedElement", "getRatioOfWeights", "splitPoints", "splitScalars"] := by decide
 
 end GoIpa.Tie.Loops
